@@ -1,5 +1,6 @@
 /-
-  C19 driver: JSON request {"f": name, "H": network, args…} → model call → JSON snapshot.
+  C19 driver: JSON request {"f": name, "H": network, args…} → model call → JSON snapshot
+  ("maximal": the IDs; "components": the answers of the connectivity queries of xgi/algorithms/connected.py).
   Network encoding: {"nodes":[ids], "edges":[[id,[members in iteration order]]…],
    "nattr":[[id,attrs]…], "eattr":[[id,attrs]…], "net":attrs, "uid":nat, "frozen":bool, "cls":"hg"|"sc"}.
   Memberships are derived from the edges (edge order).  Inputs that are not well-formed networks
@@ -12,6 +13,7 @@ import XgiModel.Proto
 import XgiModel.Drive.HG
 import XgiModel.C19.Derived
 import XgiModel.C19.Other
+import XgiModel.C19.Conn
 import XgiModel.C02.Drive
 open Lean Xgi.Proto
 
@@ -143,6 +145,17 @@ def handle (st : Unit) (j : Json) : Unit × Json :=
       let strict ← getBool? j "strict"
       pure (Json.mkObj [("out", "ok"), ("ids", idsToJson (if strict then maximalStrictIds s else maximalIds s))])
   | some "lch" => withH j "H" fun s _ => some (result (lch s))
+  | some "components" => withH j "H" fun s _ => do
+      -- connected_components / number_connected_components / is_connected / largest_connected_component and
+      -- node_connected_component for every probe node; a call that raises answers "err"
+      let probe ← match getField? j "probe" with | none => pure [] | some a => idsOfJson? a
+      let orErr : Option (List PyId) → Json := fun o => match o with | none => Json.str "err" | some c => idsToJson c
+      pure (Json.mkObj [("out", "ok"),
+        ("comps", Json.arr ((components s).map idsToJson).toArray),
+        ("number", natJson (numberComponents s)),
+        ("connected", match isConnected s with | none => Json.str "err" | some b => Json.bool b),
+        ("largest", orErr (largestConnectedComponent s)),
+        ("ncc", Json.arr (probe.map (fun n => Json.arr #[idToJson n, orErr (nodeComponent s n)])).toArray)])
   | some "relabel" => withH j "H" fun s _ => do
       let l ← getStr? j "label_attribute"
       if (← getBool? j "in_place") then
